@@ -1823,7 +1823,12 @@ func (s *SelectStatement) String() string {
 	case NoFill:
 		_, _ = buf.WriteString(" fill(none)")
 	case NumberFill:
-		_, _ = buf.WriteString(fmt.Sprintf(" fill(%v)", s.FillValue))
+		if v, ok := s.FillValue.(float64); ok {
+			// Print floats the way NumberLiteral does so that they re-parse as floats.
+			_, _ = buf.WriteString(fmt.Sprintf(" fill(%s)", (&NumberLiteral{Val: v}).String()))
+		} else {
+			_, _ = buf.WriteString(fmt.Sprintf(" fill(%v)", s.FillValue))
+		}
 	case LinearFill:
 		_, _ = buf.WriteString(" fill(linear)")
 	case PreviousFill:
